@@ -3,8 +3,9 @@ import concurrent.futures, json, os, shutil
 from vlib import e2e, formats
 from vlib.common import VERIF
 
-HASHNAME = {"sha1": "SHA-1", "sha224": "SHA-224", "sha256": "SHA-256", "sha384": "SHA-384", "sha512": "SHA-512"}
-EXPLICIT_REFUSAL = ("unsupported hash", "unsupported public key", "no certificate of type", "invalid hash function", "unknown hash type",
+HASHNAME = {"sha1": ("SHA-1", "SHA1"), "sha224": ("SHA-224", "SHA224"), "sha256": ("SHA-256", "SHA256"), "sha384": ("SHA-384", "SHA384"), "sha512": ("SHA-512", "SHA512")}
+NOT_SIGNABLE = {"mach-o-fat"}     # verify-only types
+EXPLICIT_REFUSAL = ("unsupported page hash", "unsupported hash", "unsupported public key", "no certificate of type", "invalid hash function", "unknown hash type",
                     "unsupported digest", "not supported")
 BASELINE = os.path.join(VERIF, "corpus", "c01_unsupported.json")
 # per-signer flags worth exercising (flag list, applies to sigtypes)
@@ -18,6 +19,8 @@ EXPLICIT_TYPE = {"pgp"}     # not auto-detected from these fixture names
 def jobs_for(kit, tier):
     jobs = []
     for fx, (st, trust) in e2e.FIXTURES.items():
+        if st in NOT_SIGNABLE:
+            continue
         for key, k in kit.keys.items():
             if trust == "pgp" and not k.get("pgp"):
                 digs = ["sha256"]            # refusal expected: no PGP certificate
@@ -95,11 +98,15 @@ def run(ctx, replay=None):
             if not r.get("input_untouched", True):
                 ctx.violation("C01:spec:%s:refusal-modified-input" % r["sigtype"], "signing was refused (%s) but the input file was modified" % r["sign_msg"], {"jobs": [list(ident.values())], "cmd": cmdline})
             if combo[:3] + ("",) in unsupported or combo in unsupported:
-                if not explicit:
+                if not explicit and r["remote"]:
+                    ctx.violation("C01:spec:remote-refusal-not-explicit", "through the server an unsupported combination (%s %s %s) is refused with a generic HTTP 500 and retried, not with an explicit error: %s" % (combo[0], combo[1], combo[2], r["sign_msg"]),
+                                  {"jobs": [list(ident.values())], "cmd": cmdline})
+                elif not explicit:
                     ctx.violation("C01:spec:%s:refusal-not-explicit" % r["sigtype"], "unsupported combination refused without an explicit error: %s" % r["sign_msg"], {"jobs": [list(ident.values())], "cmd": cmdline})
                 continue
-            if explicit and not os.path.exists(BASELINE):
-                new_unsupported.append(list(combo))
+            if not os.path.exists(BASELINE):
+                if explicit:
+                    new_unsupported.append(list(combo))
                 continue
             ctx.violation("C01:spec:%s:sign-failed" % r["sigtype"], "signing a well-formed %s with %s/%s failed: %s" % (r["fixture"], r["key"], r["digest"], r["sign_msg"]),
                           {"jobs": [list(ident.values())], "cmd": cmdline})
@@ -121,7 +128,7 @@ def run(ctx, replay=None):
         elif not any(s.get("pgp_keyid") for s in sigs):
             ctx.violation("C01:spec:%s:no-pgp-identity" % r["sigtype"], "accepted signature names no PGP key", {"jobs": [list(ident.values())], "cmd": cmdline, "verify": v})
         hashes = set(s.get("hash") for s in sigs)
-        if HASHNAME[r["digest"]] not in hashes:
+        if not set(HASHNAME[r["digest"]]) & hashes:
             ctx.violation("C01:spec:%s:wrong-digest" % r["sigtype"], "requested digest %s but the accepted signature reports %s" % (r["digest"], sorted(h or "?" for h in hashes)),
                           {"jobs": [list(ident.values())], "cmd": cmdline, "verify": v})
     if new_unsupported and not os.path.exists(BASELINE):
